@@ -40,6 +40,8 @@ ASSUMPTIONS = ["numeric values made only of [0-9,.] that are neither a scalar no
                "announced size",
                "Reader.read is asked for the sync traces only when the stream has a digital sync word (read_sync of a nidq "
                "stream with analog channels and no digital word raises; reading is not this property's matter)"]
+# thorough tier: the same property driven by Atheris / libFuzzer (coverage-guided) as a second engine
+ATHERIS = {"runs": 300000, "seconds": 240}
 BUDGET = {"quick": 16000, "thorough": 400000}
 
 _KEYCHARS = "abcdefghijklmnopqrstuvwxyzABCDEFGHIJKLMNOPQRSTUVWXYZ0123456789_.-:;()[] /"
